@@ -43,6 +43,12 @@ def cover_tasks(tier, seed):
 
 def run(ctx):
     from fam import blifcheck
+    import contracts.importexport     # noqa: F401
+    from pyvc.contract import REGISTRY
+    from pyvc import run as prun
+    prun.run_contracts(ctx, [c for c in REGISTRY.values() if 'C12' in c.props], 'contracts.importexport')
+    ctx.assume('flop_next contract: builder model of contracts/wiremodel.py; select / ~ summarised by their own '
+               'contracts; the Yosys cell naming grammar (contracts/importexport.yosys_next) is the specification')
     tasks = cover_tasks(ctx.tier, ctx.seed)
     ncov = len(tasks)
     names = blifcheck.flop_names()
@@ -106,6 +112,7 @@ def run(ctx):
                bound='constants, latch init codes, internal reads of outputs, vector ports merged/unmerged, '
                      '.subckt nested two levels; ISCAS gates with 2..4 inputs + DFF',
                sample=dict(fn='check_misc'))
-    return ctx.finish('other', './check C12', ['CPython', 'pyparsing'],
-                      'bounded (level B): structure enumerated, data exhaustive per instance, against BLIF '
-                      'cover semantics and the Yosys cell naming grammar')
+    return ctx.finish('other', './check C12', ['z3', 'pyvc', 'CPython', 'pyparsing'],
+                      'P: every entry of the flop_next table builds the next-state function of its Yosys cell name '
+                      '(all values); bounded (level B): structure enumerated, data exhaustive per instance, against '
+                      'BLIF cover semantics and the Yosys cell naming grammar')
